@@ -82,6 +82,58 @@ def r_listeners(ctx) -> RuleResult:
         if cls not in built:
             raise AnalysisError(f"R-LISTENERS: no `{cls}(...)` construction in the closure of graph_from_tucan")
 
+    def listener_classes(f, expr, depth):
+        """the classes of the listener objects `expr` (in function f) can stand for: a constructor call, a name bound to one (a
+        local, a module-level instance), or a parameter -- then what the callers pass, and for a caller that leaves it out the
+        default, where `if p is None: p = Ctor()` in f supplies the object.  None: not read"""
+        if depth > 4:
+            return None
+        if isinstance(expr, ast.Call):
+            r = repo.resolve_dotted(f.module, expr.func)
+            return [r[1]] if r and r[0] == "class" else None
+        if not isinstance(expr, ast.Name):
+            return None
+        ps_ = params_of(f.node)
+        if expr.id not in ps_:
+            d_ = single_def(f.node, expr.id)
+            if d_ is None:
+                r0 = repo.resolve(f.module, expr.id)
+                if r0 and r0[0] == "const":
+                    d_ = r0[1].assigns.get(r0[2])
+            return listener_classes(f, d_, depth + 1) if d_ is not None else None
+        k = ps_.index(expr.id)
+        out = []
+        # what takes the place of a missing / None argument inside f
+        fallback = None
+        for st in own_walk(f.node):
+            if isinstance(st, ast.If) and isinstance(st.test, ast.Compare) and len(st.test.ops) == 1 and isinstance(st.test.ops[0], ast.Is) and isinstance(st.test.left, ast.Name) \
+                    and st.test.left.id == expr.id and isinstance(st.test.comparators[0], ast.Constant) and st.test.comparators[0].value is None:
+                for b_ in st.body:
+                    if isinstance(b_, ast.Assign) and len(b_.targets) == 1 and isinstance(b_.targets[0], ast.Name) and b_.targets[0].id == expr.id:
+                        fallback = b_.value
+        a_ = f.node.args
+        pos_ = [x.arg for x in a_.posonlyargs + a_.args]
+        dflt = dict(zip(pos_[len(pos_) - len(a_.defaults):], a_.defaults))
+        callers = list(ctx.cg.callers_of(f.fq))
+        if not callers:
+            return None
+        for cs in callers:
+            x = cs.node.args[k - (1 if f.cls is not None else 0)] if 0 <= k - (1 if f.cls is not None else 0) < len(cs.node.args) else next((kw.value for kw in cs.node.keywords if kw.arg == expr.id), None)
+            if x is None:
+                d0 = dflt.get(expr.id)
+                if isinstance(d0, ast.Constant) and d0.value is None and fallback is not None:
+                    sub = listener_classes(f, fallback, depth + 1)
+                else:
+                    sub = None
+            else:
+                sub = listener_classes(cs.caller, x, depth + 1)
+                if sub is None and isinstance(x, ast.Name) and fallback is not None:
+                    sub = None
+            if sub is None:
+                return None
+            out += sub
+        return out
+
     def listener_checks(what, fi, var, anchor_node, must_return_var=False):
         """remove / add discipline on the object called `var` inside fi"""
         fn = fi.node
@@ -103,31 +155,9 @@ def r_listeners(ctx) -> RuleResult:
         unread_adds = []
         for a in adds:
             arg = a.args[0] if a.args else None
-            lcls_list = []
-            if isinstance(arg, ast.Name) and arg.id not in params_of(fn):
-                # a listener object kept under a name: a local, or a module-level instance shared by all parses
-                d_ = single_def(fn, arg.id)
-                if d_ is None:
-                    r0 = repo.resolve(fi.module, arg.id)
-                    if r0 and r0[0] == "const":
-                        d_ = r0[1].assigns.get(r0[2])
-                if isinstance(d_, ast.Call):
-                    arg = d_
-            if isinstance(arg, ast.Call):
-                r = repo.resolve_dotted(fi.module, arg.func)
-                if r and r[0] == "class":
-                    lcls_list = [r[1]]
-            elif isinstance(arg, ast.Name) and arg.id in params_of(fn):
-                # the listener object is an argument of the helper: look at what its call sites pass
-                k = params_of(fn).index(arg.id)
-                for cs in ctx.cg.callers_of(fi.fq):
-                    x = cs.node.args[k] if k < len(cs.node.args) else None
-                    if isinstance(x, ast.Call):
-                        r = repo.resolve_dotted(cs.caller.module, x.func)
-                        if r and r[0] == "class":
-                            lcls_list.append(r[1])
-                            continue
-                    raise AnalysisError(f"R-LISTENERS: cannot tell which listener object {fi.qualname} receives at {cs.caller.loc(cs.node)}")
+            lcls_list = listener_classes(fi, arg, 0) if arg is not None else []
+            if lcls_list is None:
+                lcls_list = []
             all_good = bool(lcls_list)
             if not lcls_list:
                 unread_adds.append(a)
